@@ -16,6 +16,7 @@ func c03Opts(i int) lib.GenOpts {
 	opt := lib.DefaultGen()
 	opt.OrderedSiblings = i%7 == 0
 	opt.ZeroLenBinary = true
+	opt.PreciseDecimals = true
 	return opt
 }
 
